@@ -203,6 +203,17 @@ func c14RunAll(tpl *pongo2.Template, variant, k int, base *c14Result, partial st
 	return res, ticks, nil
 }
 
+func (w *failingWriter) taken() string { return string(w.got) }
+func (w *overrunWriter) taken() string { return string(w.got) }
+func (w *hiccupWriter) taken() string  { return string(w.got) }
+
+// c14Unbuffered runs the unbuffered variant into w and returns a recovered panic, if any
+func c14Unbuffered(tpl *pongo2.Template, variant int, w io.Writer) (pan any) {
+	defer func() { pan = recover() }()
+	_ = tpl.ExecuteWriterUnbuffered(progContext(variant, &tickState{}), w)
+	return nil
+}
+
 // c14Outcome: how an execution ends when the k-th call of a context function panics
 func c14Outcome(tpl *pongo2.Template, variant, k int, entry string) (kind string) {
 	defer func() {
@@ -297,6 +308,21 @@ func checkC14(c any, r *Rec) error {
 				return wrap(fmt.Errorf("caller's writer failed once after %d bytes (with progress) and ExecuteWriter returned %v", n, e))
 			}
 			r.Add("writer_faults", 2)
+			// the unbuffered variant with the same failing writers: whether it reports the writer's
+			// error is not stated (it "may have written something"), but it must come back, and what
+			// the writer accepted is a leading part of the output
+			for _, w := range []interface {
+				io.Writer
+				taken() string
+			}{&failingWriter{n: n}, &overrunWriter{limit: n}, &hiccupWriter{after: n}} {
+				if p := c14Unbuffered(tpl, cs.Variant, w); p != nil {
+					return wrap(fmt.Errorf("ExecuteWriterUnbuffered with a caller's writer that fails after %d bytes (%T) panicked: %v", n, w, p))
+				}
+				if _, isHiccup := w.(*hiccupWriter); !isHiccup && !strings.HasPrefix(base.out, w.taken()) {
+					return wrap(fmt.Errorf("ExecuteWriterUnbuffered with a failing writer (%T, %d bytes): the writer received %q, not a leading part of %q", w, n, w.taken(), base.out))
+				}
+			}
+			r.Add("writer_faults", 3)
 		}
 	}
 	if cs.BadKey {
